@@ -1681,8 +1681,10 @@ bool Parser::parseNAryExpression_AtOperator(ExpressionSyntax*& baseExpr,
          * expression with same precedence of E or a tighter one. An assignment expression
          * is different in that its LHS may not be a N-ary expression: it must a unary one.
          */
-        if (precAhead == NAryPrecedence::Assignment && prevPrec > precAhead)
+        if (precAhead == NAryPrecedence::Assignment && prevPrec > precAhead) {
+            diagReporter_.UnexpectedAssignmentToNonUnaryExpression();
             return false;
+        }
 
         if (condExpr) {
             condExpr->condExpr_ = baseExpr;
